@@ -43,6 +43,8 @@ SKELS = [
     dict(name="sz-ab2-no-endgroup-two-blocks", text="C{[>][<]CC(CO[>])O[>][<]}|schulz_zimm(120,100)|{[>][<]CCS[>][<]}|schulz_zimm(90,70)|", hi=40, hi_thorough=80),
     dict(name="sz-ring-endgroup", text="{[][<]CC[>]; [<]C1CCCCC1, [>]N[]}|schulz_zimm(60,50)|", hi=45),
     dict(name="sz-branch-unit", text="N{[<][<]CC(C)[>][>]}|schulz_zimm(60,50)|[Si]", hi=80),
+    # an atom whose only partners are end groups (termination edges, no stochastic edge)
+    dict(name="sz-graft-capped-by-endgroup-only", text="{[][$]CC([<1])C[$]; [$][H], [>1]COC[]}|schulz_zimm(90,70)|", hi=60),
 ]
 
 
@@ -185,6 +187,9 @@ class _CP:
             self.failed.append(label)
 
 
+DECISIONS = 400
+
+
 def run_case(case, g, tier, res):
     on_path = collector(res, PROPERTY)
     skel = case["skel"]
@@ -197,7 +202,14 @@ def run_case(case, g, tier, res):
         gen.install_observers(g, obs)
         gen.DRAW_FN[0] = gen.symbolic_draw({}, skel.get("hi_thorough", skel["hi"] + 28) if tier == "thorough" else skel["hi"])  # thorough: one more unit per block
         gen.OBS[0] = obs
-        rng = SymRng(zero_threshold=1e-200)
+        def bounded(rec, c_):
+            # termination: a graph of at most 60 atoms needs far fewer than DECISIONS random decisions; a generation that is
+            # still drawing then is reported (and replayed on the plain package), not cut off silently
+            if len(rng.calls) >= DECISIONS:
+                c.prove(False, "unwinding bound", detail(f"generation does not end within {DECISIONS} random decisions"))
+                raise core.Infeasible()
+
+        rng = SymRng(zero_threshold=1e-200, on_choice=bounded)
         from symx import npshim
         grng = SymRng(zero_threshold=1e-200)
         npshim.GLOBAL_RANDOM_HOOK[0] = grng
@@ -298,6 +310,8 @@ def replay(rp, gb):
     try:
         ag.generate()
     except gendrive.ReplayDone:
+        if rp["label"].startswith("generation does not end within"):
+            return rng.k >= DECISIONS - 1, f"the plain package is still drawing after {rng.k} random decisions (graph of {len(ag.graph)} atoms)"
         return ("numpy's global state" in rp["label"] and bool(used_global)), f"scripted stream ended early; numpy.random legacy functions used: {used_global[:5]}"
     except Exception as e:
         return "raised" in rp["label"], f"generate raised {type(e).__name__}: {e}"
